@@ -108,7 +108,7 @@ macro_rules! index_new {
             }
             kani::cover!(T == 0 || (has_end && e == T as u64), "end at tip");
             kani::cover!(has_end && e > T as u64, "end above tip");
-            kani::cover!(T == 0 || (has_end && e < T as u64), "end below tip");
+            kani::cover!(T <= 1 || (has_end && e < T as u64), "end below tip"); // start < end rules it out for T <= 1
             kani::cover!(!has_end && start == 0, "whole chain");
             kani::cover!(start > T as u64, "start above tip");
             kani::cover!(T == 0 || start == T as u64, "start at tip");
